@@ -7,7 +7,7 @@ So their behaviour is determined on the finite domain {all-zero, not all-zero} x
 `truth_table` walks the closure's MIR under each of the six abstract inputs (nothing of /repo is executed) and returns
 the returned abstract value, or raises Unknown when the closure does something outside this domain.
 """
-from .mir import Callee, Resolver, fmt
+from .mir import Callee, Resolver, fmt, strip_sites
 
 ROW, BIAS, ZERO = 'ROW', 'BIAS', 'ZERO'
 
@@ -32,6 +32,12 @@ class Interp:
             self.vals[i] = v
 
     def place(self, pl):
+        # a captured constant of the closure being interpreted (`(*_1).k`)
+        caps = getattr(self, 'env_caps', None)
+        if caps and pl['local'] == 1 and self.b.kind == 'Closure':
+            fld = [p for p in pl['proj'] if p['k'] == 'field']
+            if len(fld) == 1 and fld[0].get('i') in caps and all(p['k'] in ('deref', 'field') for p in pl['proj']):
+                return caps[fld[0]['i']]
         v = self.vals.get(pl['local'])
         for p in pl['proj']:
             if p['k'] in ('deref', 'downcast'):
@@ -121,7 +127,7 @@ class Interp:
             return self.compare(n, args[0], args[1])
         if n in ('any', 'all') and args[0] == ROW and isinstance(args[1], tuple) and args[1][0] == 'clo':
             cb = self.F.closure(args[1][1])
-            kind = self.element_predicate(cb)
+            kind = self.element_predicate(cb, args[1][2] if len(args[1]) > 2 else None)
             if kind == 'nonzero':
                 return (not self.allzero) if n == 'any' else self._unknown('all(nonzero)')
             if kind == 'zero':
@@ -140,8 +146,8 @@ class Interp:
     def _unknown(self, what):
         raise Unknown(what)
 
-    def element_predicate(self, cb):
-        """closure |x| x != 0  -> 'nonzero';  |x| x == 0 -> 'zero'"""
+    def element_predicate(self, cb, caps=None):
+        """closure |x| x != 0  -> 'nonzero';  |x| x == 0 -> 'zero'  (the zero may be a captured constant: caps = the captured values)"""
         if cb is None:
             return None
         R = Resolver(cb)
@@ -149,6 +155,19 @@ class Interp:
         if len(rets) != 1:
             return None
         e = rets[0]
+        if caps:
+            idx = cb.upvar_index()
+
+            def bind(x):
+                if isinstance(x, tuple) and x[:1] == ('upvar',):
+                    i = idx.get(x[1])
+                    if i is not None and i < len(caps) and caps[i] == ZERO:
+                        return ('call', 'Zero::zero', ())
+                    return x
+                if isinstance(x, tuple):
+                    return tuple(bind(y) for y in x)
+                return x
+            e = bind(e)
         neg = False
         while e[0] == 'un' and e[1] == 'Not':
             neg = not neg
@@ -329,8 +348,25 @@ def truth_table(facts, closure_body, pair_arg_index=None, pair_is_ref=True):
     if pair_arg_index is None:
         pair_arg_index = closure_body.arg_count   # closures: (env, item) -> 2; plain functions: (item) -> 1
     out = {}
+    # captured constants: `let zero = A::zero();` hoisted out of the closure is still the constant zero inside it
+    env_caps = {}
+    if closure_body.kind == 'Closure':
+        parent = facts.by_path.get(closure_body.parent)
+        if parent is not None:
+            Rp = Resolver(parent)
+            for i_, j_, st_ in parent.stmts():
+                rv_ = st_.get('rv') or {}
+                if st_['k'] == 'assign' and rv_.get('k') == 'agg' and rv_['agg'].get('k') == 'closure' and rv_['agg'].get('path') == closure_body.path:
+                    for k_, op_ in enumerate(rv_['ops']):
+                        try:
+                            e_ = strip_sites(Rp.operand(op_, i_, j_))
+                        except Exception:
+                            continue
+                        if e_ in (('call', 'Zero::zero', ()), ('const', 0.0), ('const', 0)):
+                            env_caps[k_] = ZERO
     for allzero in (True, False):
         for sign in (-1, 0, 1):
             it = Interp(facts, closure_body, {pair_arg_index: ('tuple', [ROW, BIAS])}, allzero, sign)
+            it.env_caps = env_caps
             out[(allzero, sign)] = it.run()
     return out
